@@ -30,7 +30,7 @@ ASSUMPTIONS = [
     "options for which no probe in the pool is sensitive are reported as inconclusive sub-results (counter C19.option_without_sensitive_probe), never as held",
 ]
 MINIMUM = {"C19.byname_judged": 1, "C19.roundtrips_judged": 200, "C19.sensitive_probes_judged": 300, "C19.components_judged": 40, "C19.shipped_judged": 5}
-BUDGET_S = {"quick": 600, "thorough": 900}
+BUDGET_S = {"quick": 1200, "thorough": 900}
 
 BASE = {
     "input": "UNMATCHED_INSTANCE", "force_approx": True, "backend": None,
